@@ -298,6 +298,39 @@ def r3(ctx):
                       expected="fit_stacked_data called outside try/except", found="call inside a try with handlers")
 
 
+def _detecting_accesses(ctx):
+    """Wrong-kind input is recognised only through the error the single-series stacker raises when it looks at `data.shape[1]`
+    (AttributeError for a list of series, IndexError for a 1-D row).  Every path through the stacker to a normal return must
+    perform that access - a fast path that returns earlier lets wrong input through."""
+    ana = ctx.ana
+    st = ana.func("data_preparation.stack_training_data")
+    cfg = ana.cfg(st)
+    dparam = st.params[0]
+    probes = set()
+    for n in cfg.nodes:
+        src = n.ast if n.kind == "stmt" else (n.ast.test if n.kind == "test" and hasattr(n.ast, "test") else None)
+        if src is None:
+            continue
+        for x in ast.walk(src):
+            if isinstance(x, ast.Subscript) and isinstance(x.value, ast.Attribute) and x.value.attr == "shape" \
+                    and isinstance(x.value.value, ast.Name) and x.value.value.id == dparam and isinstance(x.slice, ast.Constant) and x.slice.value == 1:
+                probes.add(n.id)
+            if isinstance(x, (ast.Tuple, ast.List)) and isinstance(n.ast, ast.Assign) and isinstance(n.ast.value, ast.Attribute) \
+                    and n.ast.value.attr == "shape" and isinstance(n.ast.value.value, ast.Name) and n.ast.value.value.id == dparam and len(x.elts) == 2:
+                probes.add(n.id)       # (rows, cols) = data.shape
+    if not probes:
+        raise AnalysisError("the stacker never reads data.shape[1]: how wrong-kind input is detected is not recognised")
+    p = cfg.paths_avoiding(cfg.entry, probes, {cfg.exit.id}, kinds=("n",))
+    ctx.check(p is None, st, "every path through the single-series stacker reads data.shape[1] before it returns (the access whose failure the front "
+              "ends translate)", role="translator:probe", expected="no return before the shape access",
+              found="a path from entry to return that never looks at data.shape[1]" if p else "")
+
+
+@rule("C20", "R7", "ORDER", "wrong-kind input always reaches the access whose failure is translated", evidence=True)
+def r7(ctx):
+    _detecting_accesses(ctx)
+
+
 @rule("C20", "R4", "ORDER", "donor shortage raises RuntimeError naming the shortage", evidence=True)
 def r4(ctx):
     ana = ctx.ana
